@@ -14,13 +14,16 @@ ID = 'C11'
 
 PREFIXES = ['', '<', '&', '=>']
 ELEMENTS = ['a', 'ul', 'li.c', 'p#i', 'x[t=v]', 'x[t="a b"]', 'x[t]', 'd{text}', 's{a b}', 'e$', 'h1', 'my-el', 'x:y', '.c', '#i',
-            'x[a=b c=d]', "q[t='v']", 't{a{b}c}', 'br/', 'x[t="(a b)"]', 'x[t="f(1, \'2\')"]', 'd{a (b c) [d e]}']
+            'x[a=b c=d]', "q[t='v']", 't{a{b}c}', 'br/', 'x[t="(a b)"]', 'x[t="f(1, \'2\')"]', 'd{a (b c) [d e]}',
+            'p{a < b}', 'x[t="1<2"]']        # the prefix character inside text / a quoted value
 JOINS = ['>', '+', '^', '*3>', '*2+']
 STYLE_ABBRS = ['p10', 'm10-20', 'c#fc0.5', 'p10!', '@m', 'd:n', 'p10+m20', 'w100p', 'm-10--20', 'trf-s(2)', 'bd1-s', 'fz1.5e', 'lg(a,b)']
 LEFT = ['', ' ', 'foo ', '\t', '<div>', '<a href="x">', '</p>', '<br/>', '<img src=x>', '<p class=a>', 'a b="c" ', '> ',
         '<img alt="it\'s" />', "<p title='say \"hi\"' id=x>", '<input value="don\'t" disabled>',
         # complete tags whose unquoted attribute values hold balanced brackets (JSX expressions, handlers)
-        '<div className={styles.foo}>', '<button onclick=go()>', '<i data-x=[1]>', '<a b={c[0]} d=(e)>']
+        '<div className={styles.foo}>', '<button onclick=go()>', '<i data-x=[1]>', '<a b={c[0]} d=(e)>',
+        # runs of blanks inside the tag (column-aligned attributes, a tab, blanks before `/>`)
+        '<div  id=main>', '<ul\t class=nav>', '<br  />', '<input   disabled>']
 RIGHT = ['', ' bar', '</div>', '<b>']
 BOUNDS = {
     'quick': dict(line=4, line5=False, elements=2),
@@ -87,15 +90,18 @@ def consistency(s, p, typ, la, pre):
     return 'res', None
 
 
-def roundtrip(left, abbr, right, typ, tail=''):
-    "caret after abbr[:len-len(tail)]; expected: exactly abbr at len(left)"
-    line = left + abbr + right
-    caret = len(left) + len(abbr) - len(tail)
+PREFIX_LEFT = ['', ' ', 'foo ', 'return ', 'x = ', '<div>']
+
+
+def roundtrip(left, abbr, right, typ, tail='', prefix=''):
+    "caret after abbr[:len-len(tail)]; expected: exactly abbr at len(left) (+ the prefix found at `start`)"
+    line = left + prefix + abbr + right
+    caret = len(left) + len(prefix) + len(abbr) - len(tail)
     try:
-        r = extract(line, caret, {'type': typ})
+        r = extract(line, caret, {'type': typ, 'prefix': prefix} if prefix else {'type': typ})
     except Exception as e:
         return ('roundtrip:exception:%s' % type(e).__name__, str(e)[:80])
-    exp = dict(abbreviation=abbr, location=len(left), start=len(left), end=len(left) + len(abbr))
+    exp = dict(abbreviation=abbr, location=len(left) + len(prefix), start=len(left), end=len(left) + len(prefix) + len(abbr))
     if r is None:
         return (classify(left, abbr, None), dict(expected=exp, got=None))
     got = dict(abbreviation=r.abbreviation, location=r.location, start=r.start, end=r.end)
@@ -221,6 +227,19 @@ def run_shard(shard, ctx, tier):
                     bad = roundtrip(left, abbr, right, typ, tail)
                     if bad:
                         ctx.violation(bad[0], dict(left=left, abbr=abbr, right=right, type=typ, tail=tail), bad[1])
+        if typ == 'markup':
+            # the same with a configured prefix written before the abbreviation
+            for left in PREFIX_LEFT:
+                for right in RIGHT[:2]:
+                    for tail in tails_of(abbr):
+                        for prefix in PREFIXES[1:]:
+                            ctx.transitions += 1
+                            ctx.evals += 1
+                            ctx.validated += 1
+                            ctx.nontrivial += 1
+                            bad = roundtrip(left, abbr, right, typ, tail, prefix)
+                            if bad:
+                                ctx.violation(bad[0] + ':with-prefix', dict(left=left, abbr=abbr, right=right, type=typ, tail=tail, prefix=prefix), bad[1])
         ctx.outcome((len(abbr), typ))
     if abbr:
         ctx.sample(dict(left=LEFT[5], abbr=abbr, right=RIGHT[2]))
@@ -237,7 +256,9 @@ def check_case(case):
         if bad:
             return [('consistency:' + bad[0] if not bad[0].startswith('extract:') else bad[0], bad[1])]
         return []
-    bad = roundtrip(case['left'], case['abbr'], case['right'], case['type'], case.get('tail', ''))
+    bad = roundtrip(case['left'], case['abbr'], case['right'], case['type'], case.get('tail', ''), case.get('prefix', ''))
+    if bad and case.get('prefix'):
+        bad = (bad[0] + ':with-prefix', bad[1])
     return [bad] if bad else []
 
 
@@ -245,6 +266,7 @@ def repro(case):
     if 'line' in case:
         return 'from emmet import extract\nprint(extract(%r, %r, {"type": %r, "lookAhead": %r, "prefix": %r}))\n' % (
             case['line'], case['pos'], case['type'], case['lookAhead'], case['prefix'])
-    line = case['left'] + case['abbr'] + case['right']
-    return 'from emmet import extract\nprint(extract(%r, %d, {"type": %r}))  # expected abbreviation %r\n' % (
-        line, len(case['left']) + len(case['abbr']) - len(case.get('tail', '')), case['type'], case['abbr'])
+    pre = case.get('prefix', '')
+    line = case['left'] + pre + case['abbr'] + case['right']
+    return 'from emmet import extract\nprint(extract(%r, %d, {"type": %r, "prefix": %r}))  # expected abbreviation %r\n' % (
+        line, len(case['left']) + len(pre) + len(case['abbr']) - len(case.get('tail', '')), case['type'], pre, case['abbr'])
